@@ -86,13 +86,40 @@ PROPS['C16']['trusted'] = PROPS['C16']['trusted'] + CONC_TRUST
 
 # C09, concurrent part: the same schedule exploration with HASH_LOGS=SYNC; the chain monitor (every stored hash chains from the
 # log with the next smaller id, by the trigger's rule) runs on the final logs of every explored schedule
-PROPS['C09']['ties'].append(sched_tie('C09', 'c16', 60, 3000))
+_c09_sched = sched_tie('C09', 'c16', 60, 3000)
+_c09_sched['args'] = dict(quick=_c09_sched['args']['quick'] + ['-hash', 'sync'], thorough=_c09_sched['args']['thorough'] + ['-hash', 'sync'])   # no chain without HASH_LOGS=SYNC
+PROPS['C09']['ties'].append(_c09_sched)
+# atomic bulks (one SQL transaction inserting several logs) racing writes / bulks on an in-use ledger: explored at statement
+# granularity on the real stack, compared with the lock-protocol model Ledger/ConcChain.v (modelrun schedchain) on the projection of
+# the schedule on the chain statements (adv / log / commit / rollback); chain monitors on the raw rows
+PROPS['C09']['ties'].append(dict(name='TIE-S sched bulk', vh='sched', model='schedchain', n=dict(quick=120, thorough=3000),
+                                 args=dict(quick=['-scenario', 'c09', '-rand', 5, '-pre', 2], thorough=['-scenario', 'c09', '-rand', 300, '-pre', 4]),
+                                 kinds=['C09'], case_head='schedchain'))
+# self-test of the PostgreSQL stand-in's isolation levels: the schedule ties are only as good as these rules
+PROPS['C09']['ties'].append(dict(name='SELF pgsem isolation', vh='pgiso', model=None, n=dict(quick=1, thorough=1), kinds=['C09'], case_head='pgiso', replayable=False))
+PROPS['C09']['theorems'] += ['C09_conc_bulk_linear', 'C09_conc_bulk_committed_linear', 'C09_conc_bulk_inflight_is_holder', 'C09_conc_bulk_outcome_linear']
 PROPS['C09']['level_text'] = PROPS['C09']['level_text'].replace(
     'Concurrent schedules are reduced to a stated lemma, not explored by this check.',
-    'Concurrent schedules: C09_linear_serialized turns "inserts serialized by the advisory lock" into linearity, and the schedule harness explores the lock boundary on the real stack (2-3 writers, <= 2 deviations + random schedules, HASH_LOGS=SYNC) with the chain monitor on the raw logs.')
+    'Concurrent schedules: C09_linear_serialized turns "inserts serialized by the advisory lock" into linearity, and the schedule harness explores the lock boundary on the real stack (2-3 writers, <= 2 deviations + random schedules, HASH_LOGS=SYNC) with the chain monitor on the raw logs. Atomic bulks: theorems for ALL schedules on the lock-protocol model Ledger/ConcChain.v under READ COMMITTED (the isolation level is a stated hypothesis, shown necessary by a REPEATABLE READ witness), tied to the real stack by exhaustive bounded schedule exploration of bulk-vs-write / bulk-vs-bulk / failing-bulk scenarios with exact outcome, chain-link and event-trace match on pgsem, which models both isolation levels.')
 PROPS['C09']['explanation'] += (' CONCURRENT: the advisory-lock boundary is explored by the schedule harness (2-3 writers, all schedules with <= 2 deviations + random ones, HASH_LOGS=SYNC): '
                                'on every explored schedule the stored chain is linear in id order (monitor [not-linear]/[not-chain-hash] on the raw logs); C09_linear_serialized is the lemma that '
-                               'turns "inserts serialized by the lock" into linearity.' + _sched_note)
+                               'turns "inserts serialized by the lock" into linearity.' + _sched_note +
+                               ' ATOMIC BULKS AND ISOLATION LEVELS (Props/C09c.v, model Ledger/ConcChain.v = the lock protocol of InsertLog as an interleaving semantics: first statement, '
+                               'pg_advisory_xact_lock before every insert - transaction scoped, held from the request\'s first insert to its COMMIT/ROLLBACK -, the insert whose trigger reads the greatest-id row VISIBLE '
+                               'to the INSERT\'s snapshot, COMMIT/ROLLBACK; MVCC visibility per isolation level): PROVED for ALL schedules, any number of requests each inserting any number of logs in one transaction, '
+                               'committing, rolling back or failing in the trigger, every hash function: if every transaction runs at READ COMMITTED the stored rows - and the committed rows at any moment - are linear in id order '
+                               '(C09_conc_bulk_linear, C09_conc_bulk_committed_linear: each insert of the lock holder IS HashChain.insert because its snapshot postdates the lock grant and nobody else has rows in flight, '
+                               'C09_conc_bulk_inflight_is_holder). The isolation level is a needed hypothesis: C09_conc_repeatable_read_forks is the schedule on which a bulk opened at REPEATABLE READ chains its first log from a stale '
+                               'predecessor. TIE-S sched bulk: scenarios c09-bulk-vs-write, c09-bulk-vs-bulk, c09-bulk-fails (HASH_LOGS=SYNC, in-use ledger, racers on DISJOINT accounts so that only the chain is shared; '
+                               'an atomic bulk is run as Bulker.Run runs it: Controller.BeginTX(ctx, nil), the elements on the returned controller, Commit / Rollback) explored at statement granularity, all schedules with <= 2 deviations '
+                               '+ random; the model (instantiated at READ COMMITTED, what the unchanged code asks for) is run on the projection of the schedule on the chain statements and must print the same results, commit order, '
+                               '(log id, predecessor id) links recomputed from the stored hashes, and adv/log/commit/rollback event trace; monitors on the raw rows: [not-linear], [not-chain-hash], [c09-shared-predecessor]. pgsem honours '
+                               'sql.TxOptions (REPEATABLE READ: snapshot of the first statement, 40001 on concurrent update; SERIALIZABLE refused), self-tested by "vh pgiso" on every run ([pgsem-isolation-selftest]); '
+                               'seeded R-C09 (BeginTX defaulting to REPEATABLE READ) is caught by this tie.')
+PROPS['C09']['trusted'] = PROPS['C09'].get('trusted', []) + CONC_TRUST + [
+    'pgsem isolation levels (harness/go/pgsem, DESIGN.md Appendix C): READ COMMITTED statement snapshots, REPEATABLE READ transaction snapshot fixed at the first statement and not refreshed by lock waits, '
+    '40001 on a row updated/deleted by a transaction that committed after the snapshot, advisory locks / sequences / unique-index checks not snapshot-bound; SERIALIZABLE is not modelled (refused)',
+    'the projection used by TIE-S sched bulk: the statements of a request on its own accounts / volumes / transactions are not steps of Ledger/ConcChain.v (the scenarios keep the racers on disjoint accounts)']
 
 # ---- C12, concurrent part: import vs first writes / atomic bulks on an initializing ledger (Ledger/ConcImport.v, Props/C12c.v)
 PROPS['C12']['ties'].append(dict(name='TIE-S sched', vh='sched', model='schedimp', n=dict(quick=200, thorough=3000),
